@@ -32,7 +32,7 @@ Near(a, b) == Abs(a - b) <= 2
 MarkerItems(its, k) == SelectSeq(its, LAMBDA it : it.k = k)
 LoopInfo(sg) ==
   LET its == sg.its
-      ss == MarkerItems(its, "loopstart")  es == MarkerItems(its, "loopend")
+      ss == SelectSeq(its, LAMBDA it : it.k \in {"loopstart", "cc111"})  es == MarkerItems(its, "loopend")
       hasS == Len(ss) >= 1  hasE == Len(es) >= 1
       sT == IF hasS THEN ss[1].tick ELSE 0
       endTick == CHOOSE m \in { its[i].tick : i \in DOMAIN its } : \A i \in DOMAIN its : its[i].tick <= m
@@ -62,6 +62,20 @@ OrderOK1(D) ==
   \* events): every controller/program/wheel/pressure before every note-on
   \A i, j \in DOMAIN D :
     (i < j /\ D[i][2] = D[j][2] /\ D[i][5] = D[j][5] /\ D[i][3] = 9 /\ D[j][3] \in {11, 12, 13, 14}) => FALSE
+\* note-offs of notes that were already sounding before this tick precede the note-ons of the tick (per track; a track
+\* owns the channels k and k + 10)
+TrkOfCh(ch) == IF ch >= 10 THEN ch - 10 ELSE ch
+SoundingBeforeTime(its, ch, n, t) ==
+  LET idx == { i \in DOMAIN its : its[i].ch = ch /\ its[i].ty \in {8, 9} /\ its[i].d[1] = n /\ its[i].t < t } IN
+  idx # {} /\ its[CHOOSE i \in idx : \A j \in idx : j <= i].ty = 9
+OffOn1(D, its) ==
+  \* only the FIRST note-off of a sounding (channel, key) at this time releases the old note; later ones belong to
+  \* notes struck at this very tick and legitimately follow their note-on
+  \A i, j \in DOMAIN D :
+    (i < j /\ D[i][3] = 9 /\ D[j][3] = 8 /\ D[i][2] = D[j][2] /\ TrkOfCh(D[i][5]) = TrkOfCh(D[j][5])
+       /\ SoundingBeforeTime(its, D[j][5], D[j][6][1], D[j][2])
+       /\ ~\E q \in 1..(j - 1) : D[q][3] = 8 /\ D[q][2] = D[j][2] /\ D[q][5] = D[j][5] /\ D[q][6][1] = D[j][6][1]) => FALSE
+OffBeforeOnCalls(calls, its) == \A ci \in DOMAIN calls : OffOn1(SelectSeq(calls[ci][5], LAMBDA x : x[1] = "e"), its)
 OrderOKCalls(calls) == \A ci \in DOMAIN calls : OrderOK1(SelectSeq(calls[ci][5], LAMBDA x : x[1] = "e"))
 FileOrderOK(D, its) ==
   \* channel events of one track (channel) appear in file order unless they share a time
@@ -122,6 +136,7 @@ PlayFullFails(ev, sg, c) ==
        Lbl(\A i \in drops : wholeLoop => times[i] = 0, "jump-target0") \cup
        Lbl(~exact \/ c.loopEn \/ OrderOKCalls(calls), "ctl-before-noteon") \cup
        Lbl(~exact \/ c.loopEn \/ FileOrderOK(D, its), "file-order") \cup
+       Lbl(~exact \/ c.loopEn \/ OffBeforeOnCalls(calls, its), "sounding-noteoff-after-noteon") \cup
        Lbl(ev.atend = 1, "not-at-end") \cup
        Lbl(~c.hooks \/ ~c.loopEn \/ nLE = (IF looping /\ li.hasE THEN n + 1 ELSE n), "loopend-hook-count") \cup
        Lbl(~c.hooks \/ ~c.loopEn \/ nLS = n, "loopstart-hook-count") \cup
